@@ -18,7 +18,7 @@ for d in glob.glob('/root/scratch/mut-out/C*-out/m[12]'):
     pid = os.path.basename(os.path.dirname(d))[:3]; src[f"{pid}-{os.path.basename(d)}"] = d
 for d in glob.glob('/root/scratch/mut2-out/C*-out/m[12]'):
     pid = os.path.basename(os.path.dirname(d))[:3]; src[f"{pid}-r2{os.path.basename(d)}"] = d
-for r in (3, 4, 5):
+for r in (3, 4, 5, 6):
     for d in glob.glob(f'/root/scratch/mut{r}-out/C*-out/m[12]'):
         pid = os.path.basename(os.path.dirname(d))[:3]; src[f"{pid}-r{r}{os.path.basename(d)}"] = d
 root = '/verif/seeded'
@@ -26,8 +26,8 @@ os.makedirs(root, exist_ok=True)
 kept = 0
 for mid, d in sorted(src.items()):
     c = conf.get(mid, "")
-    if "CONFIRMED" not in c:
-        continue
+    if "CONFIRMED" not in c or mid not in det:
+        continue  # not confirmed on the final tree, or the patch no longer applies to it
     out = os.path.join(root, mid)
     shutil.rmtree(out, ignore_errors=True); os.makedirs(out)
     shutil.copy(os.path.join(d, 'patch.diff'), os.path.join(out, 'patch.diff'))
@@ -46,8 +46,8 @@ for mid, d in sorted(src.items()):
     missed = [r.split('=')[0] for r in results if '=0(' in r]
     meta = {"id": mid, "property": mid[:3], "title": title, "needs_to_manifest": needs,
             "demonstration_files": demos, "demonstration_paths_in_repo": paths,
-            "confirmed": {"at_repo_commit": commit, "how": "tools/confirm_mutant.sh: scratch worktree of /repo HEAD, patch applied, go build, full suite (go test -vet=off -count=1 ./...), demonstration with and without the change", "result": c},
-            "checks_run": {"how": "tools/matrix.sh: patch applied to a scratch worktree, ./run.sh <check> quick", "results": results, "caught_by": caught, "not_caught_by": missed}}
+            "confirmed": {"how": "tools/confirm_mutant.sh in a scratch worktree of /repo's HEAD at the time of the round (round 1-4 before the later fix: commits; rounds 5-6, ported patches and re-confirmations at 295f33d or later): patch applied, go build, full suite (go test -vet=off -count=1 ./..., known-flaky packages re-run alone), demonstration with and without the change", "result": c, "patch_applies_to_repo_commit": commit},
+            "checks_run": {"how": "tools/matrix.sh: patch applied to a scratch worktree of /repo HEAD, ./run.sh <check> quick (seed 1) from a private copy of /verif; 1(sig) = exit 1 with that first violation signature, 0() = exit 0", "results": results, "caught_by": caught, "not_caught_by": missed}}
     json.dump(meta, open(os.path.join(out, 'meta.json'), 'w'), indent=1)
     kept += 1
 print("kept", kept)
